@@ -1,9 +1,10 @@
 (* C10 — syntax errors are reported at the right place.
    Property theorems only; each is closed by [exact <lemma>] and followed by Print Assumptions.
    The model is the parser after the fixes F3 and F9 (Model/Parser.v); both theorems hold for EVERY byte string.
-   Not here: first_error_at_fault (needs the specification Spec.v), renderings_agree (renderer models). *)
+   Not here: first_error_at_fault (needs the specification Spec.v; appended below by the Spec proofs). *)
 From Coq Require Import Sorted.
 From Klog Require Import Base.Prelude Base.Utf8 Model.Lines Model.Parser Proofs.Lines Proofs.Parser.
+From Klog Require Import Model.ErrorRender Proofs.ErrorRender.
 Open Scope nat_scope.
 
 (* every reported error names a line that exists in the text and quotes exactly that line's text;
@@ -42,6 +43,74 @@ Theorem C10_errors_ascending_nth : forall (s : bytes) (es : list rerr) (i j : na
 Proof. exact errors_ascending_nth. Qed.
 Print Assumptions C10_errors_ascending_nth.
 
+(* ---- the two renderings (Model/ErrorRender.v: prettifier.go PrettifyParsingError, json toErrorViews) ---- *)
+(* the terminal rendering of an error (block, line, pos, len) — for an ARBITRARY triple — does not panic exactly
+   when the line is a line of the block and position and length are non-negative *)
+Theorem C10_render_guard_exact : forall (b : block) (line pos len : Z),
+  (exists tv, render_terminal b line pos len = Ok tv) <->
+  (0 <= line < Z.of_nat (length (b_lines b)) /\ 0 <= pos /\ 0 <= len)%Z.
+Proof. exact render_terminal_ok_iff. Qed.
+Print Assumptions C10_render_guard_exact.
+
+(* rendering the errors of ANY text never fails: the reported errors are the projections (report) of the errors
+   with their block, every one of them renders on the terminal, hence the whole message does
+   (PrettifyParsingError), one view per error; the JSON view is a total function *)
+Theorem C10_renderings_total : forall (s : bytes) (es : list rerr), parse_text s = Ok (Failed es) ->
+  es = map ctx_report (text_errors s) /\
+  Forall (fun c => exists tv, terminal_of c = Ok tv) (text_errors s) /\
+  exists tvs, prettify_all (text_errors s) = Ok tvs /\ length tvs = length es /\
+              length (error_views (text_errors s)) = length es.
+Proof. exact renderings_total. Qed.
+Print Assumptions C10_renderings_total.
+
+(* for ANY triple that renders: the terminal's line number, caret offset and caret count are the JSON view's
+   line, column - 1 and length (and these are line index + 1, pos + 1, len) *)
+Theorem C10_renderings_agree : forall (b : block) (line pos len : Z) (tv : term_view),
+  render_terminal b line pos len = Ok tv ->
+  let jv := json_error_view b line pos len in
+  (tv_line_number tv = ev_line jv /\
+   caret_offset (tv_caret_row tv) = ev_column jv - 1 /\
+   caret_count (tv_caret_row tv) = ev_length jv /\
+   ev_line jv = Z.of_nat (overall_line_index b (Z.to_nat line)) + 1 /\ ev_column jv = pos + 1 /\ ev_length jv = len)%Z.
+Proof. exact renderings_agree. Qed.
+Print Assumptions C10_renderings_agree.
+
+(* ... and for the errors of a text both renderings show the reported positions: line + 1, position, length;
+   the quoted line is the reported line text with every tab replaced by a blank *)
+Theorem C10_renderings_show_reported : forall (s : bytes) (es : list rerr), parse_text s = Ok (Failed es) ->
+  Forall (fun c =>
+    let e := ctx_report c in
+    In e es /\
+    exists tv, terminal_of c = Ok tv /\
+      (tv_line_number tv = Z.of_nat (re_line e) + 1 /\
+       tv_quoted tv = render_indent ++ replace_tabs (re_text e) /\
+       caret_offset (tv_caret_row tv) = re_pos e /\
+       caret_count (tv_caret_row tv) = re_len e /\
+       ev_line (json_of c) = Z.of_nat (re_line e) + 1 /\
+       ev_column (json_of c) = re_pos e + 1 /\
+       ev_length (json_of c) = re_len e)%Z) (text_errors s).
+Proof. exact renderings_agree_text. Qed.
+Print Assumptions C10_renderings_show_reported.
+
+(* sensitivity of the guard: on the block [line 3: "2020-01-01 x"] the triple (0, 11, 1) renders as line 4 with one
+   caret under the x; a negative length or position, or a line outside the block, panic *)
+Example C10_render_guard_nonvacuous :
+  render_terminal example_block 0 11 1 =
+    Ok {| tv_line_number := 4; tv_quoted := b!"    2020-01-01 x"; tv_caret_row := b!"               ^" |} /\
+  render_terminal example_block 0 11 (-1) = Crash CNegativeRepeat /\
+  render_terminal example_block 0 (-1) 1 = Crash CNegativeRepeat /\
+  render_terminal example_block 1 0 1 = Crash CIndexOutOfRange.
+Proof. repeat split. Qed.
+
+(* the renderings of the five errors of example_faulty *)
+Example C10_renderings_nonvacuous :
+  exists tvs, prettify_all (text_errors example_faulty) = Ok tvs /\
+    map tv_line_number tvs = [2; 3; 4; 9; 11]%Z /\
+    map (fun tv => caret_offset (tv_caret_row tv)) tvs = [14; 0; 4; 11; 4]%Z /\
+    map (fun tv => caret_count (tv_caret_row tv)) tvs = [1; 2; 9; 1; 9]%Z /\
+    map ev_column (error_views (text_errors example_faulty)) = [15; 1; 5; 12; 5]%Z.
+Proof. eexists; vm_compute; repeat split. Qed.
+
 (* non-vacuity: example_faulty has five errors on lines 1, 2, 3, 8, 10; the first one sits one past the end of
    its line (position 14 = length of "2020-01-01 (8h", length 1), so the "+ 1" of the bound is attained *)
 Example C10_nonvacuous :
@@ -49,3 +118,192 @@ Example C10_nonvacuous :
     map re_line es = [1; 2; 3; 8; 10] /\
     map re_pos es = [14; 0; 4; 11; 4]%Z /\ map re_len es = [1; 2; 9; 1; 9]%Z.
 Proof. eexists; vm_compute; repeat split. Qed.
+
+(* ---------- first_error_at_fault (appended; proofs in Proofs/SpecFaults.v and Proofs/SpecFaultLines.v) ----------
+   For every fault class of C01, injected into an ARBITRARY well-formed specification document d (Spec/Spec.v,
+   Spec/SpecInject.v): the text is rejected and the FIRST reported error names the injected line —
+   re_line = fault_line d k j, the 0-based index in the text of line j of record k (for a blank line inserted inside
+   a record: the line after it). The guard raw_ok (...) = true says the edited text still has the layout of a document. *)
+From Klog Require Import Model.Calendar Model.Values Model.Record Spec.Spec Spec.SpecInject Proofs.SpecEntry Proofs.SpecReject
+  Proofs.SpecFaults Proofs.SpecFaultLines.
+Open Scope Z_scope.
+
+(* general form: the groups before the k-th are records, the k-th group's block fails with its first error on its line j *)
+Theorem C10_first_error_at_fault_raw : forall rd k tg j, raw_ok rd = true -> nth_error (rd_groups rd) k = Some tg ->
+  Forall (fun tg => sig_parses (fst tg)) (firstn k (rd_groups rd)) -> sig_fails_at (fst tg) j ->
+  exists e es, parse_text (render_raw rd) = Ok (Failed (e :: es))
+    /\ re_line e = (length (rd_lead rd) + length (flat_map (fun g => fst g ++ snd g) (firstn k (rd_groups rd))) + j)%nat.
+Proof. exact reject_raw_at. Qed.
+Print Assumptions C10_first_error_at_fault_raw.
+
+(* malformed or non-Gregorian date *)
+Theorem C10_first_error_at_fault_bad_date : forall d k rg dtxt, wf d -> nth_error (do_records d) k = Some rg ->
+  let t := dtxt ++ skipn 10 (headline_text (fst rg)) in
+  raw_ok (inject_raw k 0 t d) = true ->
+  match dtxt with c :: _ => is_space_or_tab c = false | [] => False end ->
+  forallb (fun c => negb (is_space_or_tab c)) dtxt = true ->
+  (forall x, parse_date (utf8_encode dtxt) <> Ok x) ->
+  match skipn 10 (headline_text (fst rg)) with c :: _ => is_space_or_tab c = true | [] => True end ->
+  exists e es, parse_text (inject k 0 t d) = Ok (Failed (e :: es)) /\ re_line e = fault_line d k 0.
+Proof. exact first_error_bad_date. Qed.
+Print Assumptions C10_first_error_at_fault_bad_date.
+
+(* text after the headline: after the should-total anything that begins with a non-blank; after the date (no should-total)
+   at least one blank and then anything that begins with a non-blank other than `(` (which opens the should-total) *)
+Theorem C10_first_error_at_fault_headline_text : forall d k rg c x,
+  wf d -> nth_error (do_records d) k = Some rg ->
+  is_space_or_tab c = false ->
+  match sr_should (fst rg) with Some _ => True | None => sr_trail (fst rg) <> [] /\ (c =? ch_lpar)%N = false end ->
+  raw_ok (inject_raw k (0) (headline_text (fst rg) ++ c :: x) d) = true ->
+  exists e0 es, parse_text (inject k (0) (headline_text (fst rg) ++ c :: x) d) = Ok (Failed (e0 :: es)) /\ re_line e0 = fault_line d k (0).
+Proof. exact first_err_headline_text. Qed.
+Print Assumptions C10_first_error_at_fault_headline_text.
+
+(* wrong indentation of the record's first indented line: it begins with a blank character but with no indentation style
+   (one space, a Zs character), or with a style followed by a further blank (five spaces, tab + space, two tabs) *)
+Theorem C10_first_error_at_fault_indentation_first : forall d k rg e es2 t,
+  wf d -> nth_error (do_records d) k = Some rg -> sr_entries (fst rg) = e :: es2 ->
+  (match t with c :: _ => blank_char c = true | [] => False end /\ find_indentation (utf8_encode t) = None)
+  \/ (exists st, find_indentation (utf8_encode t) = Some st /\ is_space_or_tab (peek t (length st)) = true) ->
+  raw_ok (inject_raw k (entry_line_index (fst rg) []) (t) d) = true ->
+  exists e0 es, parse_text (inject k (entry_line_index (fst rg) []) (t) d) = Ok (Failed (e0 :: es)) /\ re_line e0 = fault_line d k (entry_line_index (fst rg) []).
+Proof. exact first_err_indentation_first. Qed.
+Print Assumptions C10_first_error_at_fault_indentation_first.
+
+(* wrong or mixed indentation of a later entry line: it does not begin with the record's style, or has a further blank
+   after it. Guard: it does not begin with style+style — that is a legal continuation line of the entry before *)
+Theorem C10_first_error_at_fault_indentation_later : forall d k rg es1 e es2 t,
+  wf d -> nth_error (do_records d) k = Some rg -> sr_entries (fst rg) = es1 ++ e :: es2 -> es1 <> [] ->
+  has_prefix (indent_text (sr_indent (fst rg)) ++ indent_text (sr_indent (fst rg))) (utf8_encode t) = false ->
+  has_prefix (indent_text (sr_indent (fst rg))) (utf8_encode t) = false \/ is_space_or_tab (peek t (length (indent_text (sr_indent (fst rg))))) = true ->
+  raw_ok (inject_raw k (entry_line_index (fst rg) es1) (t) d) = true ->
+  exists e0 es, parse_text (inject k (entry_line_index (fst rg) es1) (t) d) = Ok (Failed (e0 :: es)) /\ re_line e0 = fault_line d k (entry_line_index (fst rg) es1).
+Proof. exact first_err_indentation_later. Qed.
+Print Assumptions C10_first_error_at_fault_indentation_later.
+
+(* malformed time / duration / range, general form: the value line of an entry is replaced by the indentation and a text
+   on which parse_entry_value reports an error. The concrete families follow *)
+Theorem C10_first_error_at_fault_malformed_entry : forall d k rg es1 e es2 txt,
+  wf d -> nth_error (do_records d) k = Some rg -> sr_entries (fst rg) = es1 ++ e :: es2 ->
+  match txt with c :: _ => is_space_or_tab c = false /\ (c <? 128)%N = true | [] => False end ->
+  (forall ln, exists e0, parse_entry_value ln (indent_text (sr_indent (fst rg)) ++ txt) (length (indent_text (sr_indent (fst rg)))) = EvErr e0) ->
+  raw_ok (inject_raw k (entry_line_index (fst rg) es1) (indent_text (sr_indent (fst rg)) ++ txt) d) = true ->
+  exists e0 es, parse_text (inject k (entry_line_index (fst rg) es1) (indent_text (sr_indent (fst rg)) ++ txt) d) = Ok (Failed (e0 :: es)) /\ re_line e0 = fault_line d k (entry_line_index (fst rg) es1).
+Proof. exact first_err_malformed_entry. Qed.
+Print Assumptions C10_first_error_at_fault_malformed_entry.
+
+(* a time-shaped literal that is no time of the specification (hour > 24, minute > 59, 24:01, 24:00>, 13:00pm, 0:30am:
+   all 180,000 - 27,000 literals `<?D{1,2}:DD(am|pm)?>?` outside wf_time) where the start time should be *)
+Theorem C10_first_error_at_fault_bad_time : forall d k rg es1 e es2 st rest,
+  wf d -> nth_error (do_records d) k = Some rg -> sr_entries (fst rg) = es1 ++ e :: es2 ->
+  time_fields_in_shape st = true -> wf_time st = false ->
+  match rest with c :: _ => is_dash_or_space c = true | [] => True end ->
+  raw_ok (inject_raw k (entry_line_index (fst rg) es1) (indent_text (sr_indent (fst rg)) ++ render_time st ++ rest) d) = true ->
+  exists e0 es, parse_text (inject k (entry_line_index (fst rg) es1) (indent_text (sr_indent (fst rg)) ++ render_time st ++ rest) d) = Ok (Failed (e0 :: es)) /\ re_line e0 = fault_line d k (entry_line_index (fst rg) es1).
+Proof. exact first_err_bad_time. Qed.
+Print Assumptions C10_first_error_at_fault_bad_time.
+
+(* missing dash: a time, then blanks and something that is not a dash (`8:00 9:00`), or nothing (`8:00`) *)
+Theorem C10_first_error_at_fault_missing_dash : forall d k rg es1 e es2 a sp1 rest,
+  wf d -> nth_error (do_records d) k = Some rg -> sr_entries (fst rg) = es1 ++ e :: es2 ->
+  wf_time a = true ->
+  match rest with c :: _ => is_space c = false /\ (c =? ch_minus)%N = false | [] => True end ->
+  (sp1 = 0%nat -> rest = []) ->
+  raw_ok (inject_raw k (entry_line_index (fst rg) es1) (indent_text (sr_indent (fst rg)) ++ render_time a ++ spaces sp1 ++ rest) d) = true ->
+  exists e0 es, parse_text (inject k (entry_line_index (fst rg) es1) (indent_text (sr_indent (fst rg)) ++ render_time a ++ spaces sp1 ++ rest) d) = Ok (Failed (e0 :: es)) /\ re_line e0 = fault_line d k (entry_line_index (fst rg) es1).
+Proof. exact first_err_missing_dash. Qed.
+Print Assumptions C10_first_error_at_fault_missing_dash.
+
+(* missing end time (s' empty: `8:00 -`), an end that is no time (`8:00 - 9:60`, `8:00 - foo`), shifted placeholder `<?` *)
+Theorem C10_first_error_at_fault_bad_end : forall d k rg es1 e es2 a sp1 sp2 s' tail,
+  wf d -> nth_error (do_records d) k = Some rg -> sr_entries (fst rg) = es1 ++ e :: es2 ->
+  wf_time a = true ->
+  forallb (fun c => negb (is_space_or_tab c)) s' = true ->
+  match tail with c :: _ => is_space_or_tab c = true | [] => True end ->
+  match s' ++ tail with c :: _ => is_space c = false /\ (c =? ch_q)%N = false | [] => True end ->
+  (forall t, parse_time (utf8_encode s') <> Ok t) ->
+  raw_ok (inject_raw k (entry_line_index (fst rg) es1) (indent_text (sr_indent (fst rg)) ++ render_time a ++ spaces sp1 ++ [45%N] ++ spaces sp2 ++ s' ++ tail) d) = true ->
+  exists e0 es, parse_text (inject k (entry_line_index (fst rg) es1) (indent_text (sr_indent (fst rg)) ++ render_time a ++ spaces sp1 ++ [45%N] ++ spaces sp2 ++ s' ++ tail) d) = Ok (Failed (e0 :: es)) /\ re_line e0 = fault_line d k (entry_line_index (fst rg) es1).
+Proof. exact first_err_bad_end. Qed.
+Print Assumptions C10_first_error_at_fault_bad_end.
+
+(* shifted or otherwise decorated placeholder: `?` followed, up to the next blank, by anything but further `?` (`?>`, `?x`, `??>`) *)
+Theorem C10_first_error_at_fault_bad_placeholder : forall d k rg es1 e es2 a sp1 sp2 rep tail,
+  wf d -> nth_error (do_records d) k = Some rg -> sr_entries (fst rg) = es1 ++ e :: es2 ->
+  wf_time a = true ->
+  forallb (fun c => negb (is_space_or_tab c)) rep = true ->
+  match tail with c :: _ => is_space_or_tab c = true | [] => True end ->
+  forallb (fun c => (c =? ch_q)%N) rep = false ->
+  raw_ok (inject_raw k (entry_line_index (fst rg) es1) (indent_text (sr_indent (fst rg)) ++ render_time a ++ spaces sp1 ++ [45%N] ++ spaces sp2 ++ 63%N :: rep ++ tail) d) = true ->
+  exists e0 es, parse_text (inject k (entry_line_index (fst rg) es1) (indent_text (sr_indent (fst rg)) ++ render_time a ++ spaces sp1 ++ [45%N] ++ spaces sp2 ++ 63%N :: rep ++ tail) d) = Ok (Failed (e0 :: es)) /\ re_line e0 = fault_line d k (entry_line_index (fst rg) es1).
+Proof. exact first_err_bad_placeholder. Qed.
+Print Assumptions C10_first_error_at_fault_bad_placeholder.
+
+(* `1h60m`: a duration literal with both parts whose minute part is 60 or more *)
+Theorem C10_first_error_at_fault_minutes_overflow : forall d k rg es1 e es2 du tail,
+  wf d -> nth_error (do_records d) k = Some rg -> sr_entries (fst rg) = es1 ++ e :: es2 ->
+  dur_minutes_overflow du = true -> tail_ok tail ->
+  raw_ok (inject_raw k (entry_line_index (fst rg) es1) (indent_text (sr_indent (fst rg)) ++ render_dur du ++ tail) d) = true ->
+  exists e0 es, parse_text (inject k (entry_line_index (fst rg) es1) (indent_text (sr_indent (fst rg)) ++ render_dur du ++ tail) d) = Ok (Failed (e0 :: es)) /\ re_line e0 = fault_line d k (entry_line_index (fst rg) es1).
+Proof. exact first_err_minutes_overflow. Qed.
+Print Assumptions C10_first_error_at_fault_minutes_overflow.
+
+(* reversed range *)
+Theorem C10_first_error_at_fault_reversed_range : forall d k rg es1 e es2 a sp1 sp2 b tail,
+  wf d -> nth_error (do_records d) k = Some rg -> sr_entries (fst rg) = es1 ++ e :: es2 ->
+  wf_time a = true -> wf_time b = true -> timeline b < timeline a -> tail_ok tail ->
+  raw_ok (inject_raw k (entry_line_index (fst rg) es1) (indent_text (sr_indent (fst rg)) ++ render_value (SRange a sp1 sp2 b) ++ tail) d) = true ->
+  exists e0 es, parse_text (inject k (entry_line_index (fst rg) es1) (indent_text (sr_indent (fst rg)) ++ render_value (SRange a sp1 sp2 b) ++ tail) d) = Ok (Failed (e0 :: es))
+    /\ re_line e0 = fault_line d k (entry_line_index (fst rg) es1).
+Proof. exact first_err_reversed_range. Qed.
+Print Assumptions C10_first_error_at_fault_reversed_range.
+
+(* second open range *)
+Theorem C10_first_error_at_fault_second_open : forall d k rg es1 e es2 a sp1 sp2 extra tail,
+  wf d -> nth_error (do_records d) k = Some rg -> sr_entries (fst rg) = es1 ++ e :: es2 ->
+  count_open es1 <> 0%nat -> wf_time a = true -> tail_ok tail -> text_ok tail = true ->
+  raw_ok (inject_raw k (entry_line_index (fst rg) es1) (indent_text (sr_indent (fst rg)) ++ render_value (SOpen a sp1 sp2 extra) ++ tail) d) = true ->
+  exists e0 es, parse_text (inject k (entry_line_index (fst rg) es1) (indent_text (sr_indent (fst rg)) ++ render_value (SOpen a sp1 sp2 extra) ++ tail) d) = Ok (Failed (e0 :: es))
+    /\ re_line e0 = fault_line d k (entry_line_index (fst rg) es1).
+Proof. exact first_err_second_open. Qed.
+Print Assumptions C10_first_error_at_fault_second_open.
+
+(* summary line starting with a blank character *)
+Theorem C10_first_error_at_fault_blank_summary : forall d k rg s1 s s2 t, wf d -> nth_error (do_records d) k = Some rg ->
+  sr_summary (fst rg) = s1 ++ s :: s2 ->
+  match t with c :: _ => blank_char c = true | [] => False end ->
+  find_indentation (utf8_encode t) = None ->
+  raw_ok (inject_raw k (summary_line_index s1) t d) = true ->
+  exists e0 es, parse_text (inject k (summary_line_index s1) t d) = Ok (Failed (e0 :: es))
+    /\ re_line e0 = fault_line d k (summary_line_index s1).
+Proof. exact first_error_blank_summary. Qed.
+Print Assumptions C10_first_error_at_fault_blank_summary.
+
+(* blank line inside a record: the error is on the line AFTER the inserted blank line *)
+Theorem C10_first_error_at_fault_blank_inside : forall d k rg es1 e es2 bl, wf d -> nth_error (do_records d) k = Some rg ->
+  sr_entries (fst rg) = es1 ++ e :: es2 ->
+  raw_ok (inject_blank_raw k (entry_line_index (fst rg) es1) bl d) = true ->
+  exists e0 es, parse_text (inject_blank k (entry_line_index (fst rg) es1) bl d) = Ok (Failed (e0 :: es))
+    /\ re_line e0 = S (fault_line d k (entry_line_index (fst rg) es1)).
+Proof. exact first_err_blank_inside. Qed.
+Print Assumptions C10_first_error_at_fault_blank_inside.
+
+(* stray text as a block of its own *)
+Theorem C10_first_error_at_fault_stray_text : forall d k t0 others gap, wf d -> (k <= length (do_records d))%nat ->
+  raw_ok (inject_stray_raw k (t0 :: others) gap d) = true -> stray_first_line t0 ->
+  exists e0 es, parse_text (inject_stray k (t0 :: others) gap d) = Ok (Failed (e0 :: es)) /\ re_line e0 = fault_line d k 0.
+Proof. exact first_error_stray. Qed.
+Print Assumptions C10_first_error_at_fault_stray_text.
+
+(* non-vacuity: a reversed range on the second entry line of a one-record document with CRLF and a leading blank line;
+   the guards hold and the first error is on line 3 (0-based) *)
+Example C10_first_error_nonvacuous :
+  let tm h m := {| st_shift := 0; st_hh := h; st_pad := false; st_mm := m; st_clock := C24 |} in
+  let e1 := {| se_value := SDur {| du_sign := SNone; du_h := Some b!"1"; du_m := None |}; se_first := None; se_more := [] |} in
+  let r := {| sr_date := {| sd_year := 2020; sd_month := 1; sd_day := 1; sd_dash := true |}; sr_should := None; sr_trail := [];
+              sr_summary := []; sr_indent := ITab; sr_entries := [e1; e1] |} in
+  let d := {| do_lead := [[]]; do_records := [(r, [])]; do_crlf := fun _ => true; do_final_newline := true |} in
+  let t := indent_text ITab ++ render_value (SRange (tm 10 0) 1 1 (tm 9 0)) ++ [] in
+  wf d /\ raw_ok (inject_raw 0 (entry_line_index r [e1]) t d) = true /\ fault_line d 0 (entry_line_index r [e1]) = 3%nat
+  /\ exists e0 es, parse_text (inject 0 (entry_line_index r [e1]) t d) = Ok (Failed (e0 :: es)) /\ re_line e0 = 3%nat.
+Proof. cbv zeta. split; [vm_compute; reflexivity|]. split; [vm_compute; reflexivity|]. split; [reflexivity|]. eexists; eexists; split; vm_compute; reflexivity. Qed.
